@@ -445,3 +445,24 @@ def eval_term(seq):
             out.append(v)
             i += 1
     return bytes(out)
+
+
+WORDLISTS = {"bip39": ("bip39/english.txt", 2048, "2f5eed53a4727b4bf8880d8f3f199efc90e58503646d9ff8eff3a2ed3b24dbda"),
+             "slip39": ("slip39/wordlist.txt", 1024, "bcc4555340332d169718aed8bf31dd9d5248cb7da6e5d355140ef4f1e601eec3")}
+
+
+def spec_wordlist(ctx, which, lib_words):
+    """The word list is part of the specification (BIP39 english.txt / the SLIP39 list): the copy under specs/ is what the checks
+    use as oracle, and the list the library loaded must be that list."""
+    import hashlib
+    rel, n, digest = WORDLISTS[which]
+    raw = open(os.path.join(SPECS, rel), "rb").read()
+    words = raw.decode().split()
+    if hashlib.sha256(raw).hexdigest() != digest or len(words) != n or words != sorted(words) or len({w[:4] for w in words}) != n:
+        raise MachineryError("the specification's copy of the %s word list is damaged" % which)
+    lib = list(lib_words)
+    if lib != words:
+        k = next((i for i in range(min(len(lib), n)) if lib[i] != words[i]), min(len(lib), n))
+        ctx.violation("wordlist:%s-list-differs" % which, "the %s word list loaded by the library differs from the standard list at index %d: %r (standard: %r)"
+                      % (which, k, lib[k] if k < len(lib) else None, words[k] if k < n else None), {"kind": "wordlist", "which": which, "index": k})
+    return words
